@@ -49,12 +49,6 @@ def probe(_):
     out['(info) csr_matrix(csr) shares'] = bool(np.shares_memory(sparse.csr_matrix(a).data, a.data))
     out['(info) csr.tocsr() is self'] = a.tocsr() is a
     out['(info) csr.T shares'] = bool(np.shares_memory(a.T.data, a.data))
-    # ---- writes that are part of the contract (reviewed entries of Props/C01.v): the snapshot machinery must SEE them
-    from sknetwork.visualization.graphs import svg_text
-    from sknetwork.hierarchy.postprocess import get_dendrogram
-    run('(by design) svg_text', lambda pos: svg_text(pos, 'a', 3.), pos=np.array([1., 2.]))
-    run('(by design) get_dendrogram', lambda tree: get_dendrogram(tree), tree=[[0], [1], [[2], [3]]])
-    run('(by design) get_dendrogram[copy_tree]', lambda tree: get_dendrogram(tree, copy_tree=True), tree=[[0], [1], [[2], [3]]])
     return out
 
 
